@@ -156,3 +156,157 @@ pub fn ast_main(args: &[String]) {
         Err(_) => println!("PANIC"),
     }
 }
+
+// ---- formatter obligations (C08 / C09): span-insensitive views of the AST --------------------------------------------------
+/// `{:?}` of an AST value with every `Span { start: N, end: M }` replaced by `_` (positions are not part of a program's meaning).
+pub fn strip_spans(s: &str) -> String {
+    let pat = "Span { start: ";
+    let mut out = String::with_capacity(s.len());
+    let mut rest = s;
+    while let Some(i) = rest.find(pat) {
+        out.push_str(&rest[..i]);
+        match rest[i..].find('}') {
+            Some(j) => {
+                out.push('_');
+                rest = &rest[i + j + 1..];
+            }
+            None => {
+                out.push_str(&rest[i..]);
+                rest = "";
+            }
+        }
+    }
+    out.push_str(rest);
+    out
+}
+
+fn split_cases(text: &str) -> Vec<(String, String, String)> {
+    // cases are introduced by a line `#@@ <id> <kind>`; the case's source is everything up to the next marker
+    let mut cases = Vec::new();
+    let mut cur: Option<(String, String, String)> = None;
+    for line in text.split_inclusive('\n') {
+        if let Some(h) = line.strip_prefix("#@@ ") {
+            if let Some(c) = cur.take() {
+                cases.push(c);
+            }
+            let mut it = h.split_whitespace();
+            let id = it.next().unwrap_or("?").to_string();
+            let kind = it.next().unwrap_or("program").to_string();
+            cur = Some((id, kind, String::new()));
+        } else if let Some(c) = cur.as_mut() {
+            c.2.push_str(line);
+        }
+    }
+    if let Some(c) = cur.take() {
+        cases.push(c);
+    }
+    cases
+}
+
+fn parse_src(src: &str) -> Result<incan::ast::Program, String> {
+    let tokens = incan::lexer::lex(src).map_err(|e| format!("LEX-ERROR {}: {}", e.len(), e.iter().map(|x| x.message.clone()).collect::<Vec<_>>().join(" | ")))?;
+    incan::parser::parse(&tokens).map_err(|e| format!("PARSE-ERROR {}: {}", e.len(), e.iter().map(|x| x.message.clone()).collect::<Vec<_>>().join(" | ")))
+}
+
+fn view(program: &incan::ast::Program, kind: &str) -> Result<String, String> {
+    use incan::ast::{Declaration, Expr, Statement};
+    let first_fn = || {
+        program.declarations.iter().find_map(|d| if let Declaration::Function(f) = &d.node { Some(f) } else { None }).ok_or_else(|| "NO-FUNCTION".to_string())
+    };
+    let s = match kind {
+        "program" => format!("{:?}", program.declarations),
+        "decl" => format!("{:?}", program.declarations.first().map(|d| &d.node)),
+        "body" => format!("{:?}", first_fn()?.body),
+        "stmt" => format!("{:?}", first_fn()?.body.first().map(|s| &s.node)),
+        "params" => format!("{:?}", first_fn()?.params),
+        "type" => format!("{:?}", first_fn()?.return_type.node),
+        "decorator" => format!("{:?}", first_fn()?.decorators.first().map(|d| &d.node)),
+        "method" | "field" => {
+            let m = program
+                .declarations
+                .iter()
+                .find_map(|d| if let Declaration::Model(m) = &d.node { Some(m) } else { None })
+                .ok_or_else(|| "NO-MODEL".to_string())?;
+            if kind == "method" {
+                format!("{:?}", m.methods.first().map(|x| &x.node))
+            } else {
+                format!("{:?}", m.fields.first().map(|x| &x.node))
+            }
+        }
+        "expr" | "pattern" | "arm" => {
+            let f = first_fn()?;
+            let e = match f.body.first().map(|s| &s.node) {
+                Some(Statement::Assignment(a)) => &a.value.node,
+                Some(Statement::Expr(e)) => &e.node,
+                Some(Statement::Return(Some(e))) => &e.node,
+                other => return Err(format!("NO-EXPR {:?}", other.map(|_| "other statement"))),
+            };
+            match (kind, e) {
+                ("expr", e) => format!("{e:?}"),
+                ("pattern", Expr::Match(_, arms)) => format!("{:?}", arms.first().map(|a| &a.node.pattern.node)),
+                ("arm", Expr::Match(_, arms)) => format!("{:?}", arms.iter().map(|a| &a.node).collect::<Vec<_>>()),
+                _ => return Err("NO-MATCH".to_string()),
+            }
+        }
+        _ => return Err("BAD-KIND".to_string()),
+    };
+    Ok(strip_spans(&s))
+}
+
+/// `astdbg <file>`: for every `#@@ <id> <kind>` case parse the text and print `CASE <id> OK <span-free Debug of the selected node>`
+/// (or `CASE <id> ERR <why>`).
+pub fn astdbg_main(args: &[String]) {
+    let text = std::fs::read_to_string(&args[0]).expect("readable case file");
+    for (id, kind, src) in split_cases(&text) {
+        let r = std::panic::catch_unwind(|| parse_src(&src).and_then(|p| view(&p, &kind)));
+        match r {
+            Ok(Ok(s)) => println!("CASE {id} OK {s}"),
+            Ok(Err(e)) => println!("CASE {id} ERR {}", e.replace('\n', " ")),
+            Err(_) => println!("CASE {id} ERR PANIC"),
+        }
+    }
+}
+
+/// `fmtrt <file>`: for every case (a whole program) run the real pipeline  text -> parse -> format -> parse  and report whether the
+/// re-parsed program is the same program (span-free AST equality), whether formatting the output again changes it, and whether
+/// `check_formatted` agrees with that:  `CASE <id> SAME|DIFF|SRC-ERR|OUT-ERR|FMT-ERR [NONIDEM] [CHECK-DISAGREES] | <details>`.
+pub fn fmtrt_main(args: &[String]) {
+    let text = std::fs::read_to_string(&args[0]).expect("readable case file");
+    for (id, _kind, src) in split_cases(&text) {
+        let r = std::panic::catch_unwind(|| {
+            let p1 = match parse_src(&src) {
+                Ok(p) => p,
+                Err(e) => return format!("SRC-ERR | {e}"),
+            };
+            let out = match incan::format_source(&src) {
+                Ok(o) => o,
+                Err(e) => return format!("FMT-ERR | {e:?}"),
+            };
+            let shown = out.replace('\\', "\\\\").replace('\n', "\\n");
+            let p2 = match parse_src(&out) {
+                Ok(p) => p,
+                Err(e) => return format!("OUT-ERR | {e} | output: {shown}"),
+            };
+            let (a, b) = (strip_spans(&format!("{:?}", p1.declarations)), strip_spans(&format!("{:?}", p2.declarations)));
+            let mut flags = String::new();
+            match incan::format_source(&out) {
+                Ok(o2) if o2 == out => {}
+                Ok(o2) => flags.push_str(&format!(" NONIDEM[{}]", o2.replace('\\', "\\\\").replace('\n', "\\n"))),
+                Err(_) => flags.push_str(" NONIDEM[error]"),
+            }
+            match incan::check_formatted(&out) {
+                Ok(true) => {}
+                _ => flags.push_str(" CHECK-DISAGREES"),
+            }
+            if a == b {
+                format!("SAME{flags} | output: {shown}")
+            } else {
+                format!("DIFF{flags} | output: {shown} | before: {a} | after: {b}")
+            }
+        });
+        match r {
+            Ok(s) => println!("CASE {id} {s}"),
+            Err(_) => println!("CASE {id} PANIC"),
+        }
+    }
+}
